@@ -514,8 +514,10 @@ class C10(Prop):
             "out-of-range index, wrong kind, empty key); non-trivial = the path has at least one step and resolves")
     trusted = ["skip_container and skip_string_unchecked are modelled block by block (Impl/Block, Impl/StrSkip), proved equal to their scalar scans for "
                "every text and right on every well-formed container / string, and compared with the real functions through the hooks "
-               "verif::container_block / verif::skip_string; get_next_token and the key matching of the unchecked walkers are tied by correspondence "
-               "only, on well-formed input"]
+               "verif::container_block / verif::skip_string; the unchecked walkers themselves (get_from_object / get_from_array with get_next_token) are "
+               "modelled in Impl/GetU, proved to find exactly what the specification's lookup finds whenever what they pass over is well-formed "
+               "(unchecked_get_eq_lookup, unchecked_get_agrees_with_checked), and compared with get_unchecked on every case of the stream; the "
+               "unchecked iterators (skip_one_unchecked, skip_number_unsafe) are tied by correspondence only (C12)"]
     assumptions = ["documents are duplicate-free except the explicit first-member-wins cases"]
     CHECKED = ["get", "get_slice", "get_bytes", "get_str", "get_string", "get_faststr"]
     UNCHECKED = ["getu", "getu_str"]
